@@ -174,6 +174,7 @@ func (fr *frame) oblige1(kind, label string, guard, goal string, pos token.Pos, 
 	if fr.prefix != "" {
 		base = fmt.Sprintf("%s/%s#%s@%s", shortFunc(e.root.String()), kind, label, fr.prefix)
 	}
+	base += e.instance
 	e.oblNames[base]++
 	name := base
 	if n := e.oblNames[base]; n > 1 {
@@ -546,6 +547,46 @@ func (fr *frame) enterBlock(b *ssa.BasicBlock) (string, *state) {
 				}
 			}
 			fr.vals[phi] = e.define(fr.prefix+phi.Name(), e.st.sortOf(phi.Type()), t)
+			if isFloat(phi.Type()) {
+				// integer shadow of a merge of integer-valued floats
+				var sh, cs []string
+				all := true
+				for i2 := range ins {
+					if ins[i2] == nil {
+						continue
+					}
+					k, c, ok := e.shadowOf(fr.val(phi.Edges[i2]))
+					if !ok {
+						all = false
+						break
+					}
+					sh = append(sh, k)
+					cs = append(cs, implies(ins[i2].cond, c))
+					_ = i2
+				}
+				if all && len(sh) > 0 {
+					var st string
+					first2 := true
+					idx := 0
+					for i2 := len(ins) - 1; i2 >= 0; i2-- {
+						if ins[i2] == nil {
+							continue
+						}
+						idx++
+						k := sh[len(sh)-idx]
+						if first2 {
+							st, first2 = k, false
+						} else {
+							st = ite(ins[i2].cond, k, st)
+						}
+					}
+					kk := e.define("ishadow", "Int", st)
+					cond := and(cs...)
+					e.assume(implies(cond, eq(fr.vals[phi], app("to_real", kk))))
+					e.shadow[fr.vals[phi]] = [2]string{kk, cond}
+					e.intValued[fr.vals[phi]] = true
+				}
+			}
 			if _, isPtr := phi.Type().Underlying().(*types.Pointer); isPtr {
 				for i := range ins {
 					if ins[i] != nil {
